@@ -4,6 +4,7 @@ package health
 
 import (
 	"encoding/json"
+	"sync"
 	"sync/atomic"
 	"testing"
 	"time"
@@ -60,6 +61,26 @@ func TestVerif_HealthBreaker(t *testing.T) {
 				}
 				f, o := verifBreakerState(cb, url)
 				tr.Emit("Ask", "res", res, "f", f, "o", o)
+			case "Race":
+				// n goroutines ask at once (released together)
+				n := zzverif.Int(args[0])
+				var admits atomic.Int64
+				var wg sync.WaitGroup
+				start := make(chan struct{})
+				for k := 0; k < n; k++ {
+					wg.Add(1)
+					go func() {
+						defer wg.Done()
+						<-start
+						if !cb.IsOpen(url) {
+							admits.Add(1)
+						}
+					}()
+				}
+				close(start)
+				wg.Wait()
+				f, o := verifBreakerState(cb, url)
+				tr.Emit("Race", "n", n, "admits", admits.Load(), "f", f, "o", o)
 			case "Fail":
 				cb.RecordFailure(url)
 				f, o := verifBreakerState(cb, url)
